@@ -8,16 +8,17 @@ Local Open Scope Z_scope.
 Definition C02_gem_full : Prop := forall sa sb a b z,
   gem_parse sa = Ok a -> gem_parse sb = Ok b -> gspec_compare sa sb = Some z -> compare a b = Ok z.
 
-(* It is false on the code as it stands.  F-C02-1: the zero-trimming loop truncates the
-   prerelease at every element "0": 1.2.3.a.0.b parses to 1.2.3.a and compares equal to it;
-   Gem::Version orders it below.  (Third clause: with the repaired loop, switch
-   gem_fix_zero_trim, the same pair agrees.) *)
+(* It is false on the code as it stands.  F-C02-12: letters are lower-cased here and keep
+   their case in Gem::Version: 1.0.A and 1.0.a compare equal here, Gem::Version orders them.
+   (F-C02-1, the zero-trimming loop that truncated the prerelease at every element "0", is
+   repaired in the tree: switch gem_fix_zero_trim = true; the witness list below keeps both
+   variants of that pair.) *)
 Theorem C02_gem_refuted : ~ C02_gem_full.
 Proof.
-  intros F. destruct gem_trim_witness as [W1 [W2 _]]. unfold cmp_strings in W1.
-  change (gem_parse_with false) with gem_parse in W1.
-  destruct (gem_parse s_123a0b) as [a| | |] eqn:Pa; try discriminate.
-  destruct (gem_parse s_123a) as [b| | |] eqn:Pb; try discriminate.
+  intros F. destruct gem_case_witness as [W1 W2]. unfold cmp_strings in W1.
+  change (gem_parse_with true) with gem_parse in W1.
+  destruct (gem_parse s_10A) as [a| | |] eqn:Pa; try discriminate.
+  destruct (gem_parse s_10a) as [b| | |] eqn:Pb; try discriminate.
   rewrite (F _ _ a b (-1) Pa Pb W2) in W1. discriminate.
 Qed.
 Print Assumptions C02_gem_refuted.
